@@ -30,3 +30,12 @@ Theorem C03_unordered_gap_current_refuted :
     files (fst r) (1%N, false) <> None /\ files (fst r) (2%N, false) = None /\ files st (2%N, false) <> None.
 Proof. exact unord_current_gap_refuted. Qed.
 Print Assumptions C03_unordered_gap_current_refuted.
+
+(* finding C03-stale-intent-log: today a failed sync of the intent log gives the replacement up (error returned, live list
+   unchanged) but leaves the COMPLETE log on disk; the store lives on and a later start-up rolls it forward *)
+Theorem C03_stale_log_current_refuted :
+  exists inuse fails old new st live,
+    let r := replace_exec Current inuse fails 0 old new st live in
+    r_err r = true /\ r_live r = live /\ logs (r_fs r) = FullLog old new.
+Proof. exact stale_log_current. Qed.
+Print Assumptions C03_stale_log_current_refuted.
